@@ -1843,6 +1843,8 @@ def _new_level_names(prog, keep: set[str]) -> dict[str, ast.AST | None]:
     (tuple / frozenset / dict / list of constants and names of classes or
     functions), else None."""
     out: dict[str, ast.AST | None] = {}
+    # class level name -> classes that define it (inventory included)
+    definers: dict[str, set[str]] = {}
     for mname, mod in prog.modules.items():
         level = [(None, st) for st in mod.tree.body]
         for st in mod.tree.body:
@@ -1859,6 +1861,8 @@ def _new_level_names(prog, keep: set[str]) -> dict[str, ast.AST | None]:
             if tgt is None or tgt.startswith("__"):
                 continue
             q = f"{mname}:={cname + '.' if cname else ''}{tgt}"
+            if cname:
+                definers.setdefault(tgt, set()).add(f"{mname}:{cname}")
             if q in keep:
                 continue
             out[q] = val if _literal_table(val) and not _mutated(
@@ -1873,7 +1877,7 @@ def _new_level_names(prog, keep: set[str]) -> dict[str, ast.AST | None]:
         if "." in rhs:
             by_attr.setdefault(rhs.split(".")[-1], []).append(q)
     for attr, qs in by_attr.items():
-        if len(qs) > 1:
+        if len(qs) > 1 or len(definers.get(attr, ())) > 1:
             for q in qs:
                 out[q] = None
     return out
